@@ -72,6 +72,9 @@ def main(argv=None) -> int:
             return 2
         project = Project(args.repo)
         mod.run(project, rep, args.tier)
+        # typestate of one-shot iterators in the code the rules looked at (rules/oneshot.py)
+        from .rules import oneshot
+        rep.extra["oneshot_functions"] = oneshot.check(project, rep)
         if args.tier == "thorough" and not args.dry:
             from .selftest.run import neutral_run, seeded_runs, sensitivity
             sr = seeded_runs(pid, project.repo)
